@@ -14,7 +14,7 @@ ExplainAt == atoi(IOEnv.EXPLAIN)
 
 TInit ==
     /\ l = 1
-    /\ cfg = [ra |-> FALSE, ext |-> FALSE, mut |-> FALSE, std |-> FALSE]
+    /\ cfg = [ra |-> FALSE, ext |-> FALSE, mut |-> FALSE, std |-> FALSE, dc |-> FALSE, stp |-> FALSE]
     /\ step = 1 /\ n = 0 /\ under = <<>> /\ p = 0 /\ q = 0
     /\ last = [op |-> "Init", k |-> 0, a |-> NoArg, res |-> Void]
     /\ pre = [n |-> 0, step |-> 1, p |-> 0, q |-> 0]
@@ -22,8 +22,8 @@ TInit ==
 (* the script's precondition: a positive stride, the storage holds exactly n strides *)
 TReset(e) == LET a == e.a IN
     /\ a.step >= 1 /\ a.n >= 0 /\ Len(a.under) = a.n * a.step
-    /\ (a.ext => a.ra)
-    /\ cfg' = [ra |-> a.ra, ext |-> a.ext, mut |-> a.mut, std |-> a.std]
+    /\ (a.ext => a.ra) /\ (a.stp => a.ra)
+    /\ cfg' = [ra |-> a.ra, ext |-> a.ext, mut |-> a.mut, std |-> a.std, dc |-> a.dc, stp |-> a.stp]
     /\ step' = a.step /\ n' = a.n /\ under' = a.under
     /\ p' = 0 /\ q' = 0
     /\ pre' = [n |-> n, step |-> step, p |-> p, q |-> q]
@@ -64,6 +64,19 @@ Dispatch(e) == LET k == e.k  a == e.a IN
     \/ e.op = "IndexWrite"      /\ IndexWrite(k, a.k, a.v)
     \/ e.op = "TraverseForward" /\ TraverseForward(a.how)
     \/ e.op = "TraverseReverse" /\ TraverseReverse(a.how)
+    \/ e.op = "StdCopy"         /\ StdCopy(k)
+    \/ e.op = "StdCopyBackward" /\ StdCopyBackward(k)
+    \/ e.op = "StdReverseCopy"  /\ StdReverseCopy(k)
+    \/ e.op = "StdFind"         /\ StdFind(k, a.v)
+    \/ e.op = "StdCount"        /\ StdCount(k, a.v)
+    \/ e.op = "StdEqual"        /\ StdEqual(k, a.j)
+    \/ e.op = "StdLowerBound"   /\ StdLowerBound(k, a.v)
+    \/ e.op = "StdFill"         /\ StdFill(k, a.v)
+    \/ e.op = "StdReverse"      /\ StdReverse(k)
+    \/ e.op = "StdSort"         /\ StdSort(k)
+    \/ e.op = "ValueInit"       /\ ValueInit(a.o)
+    \/ e.op = "EqualM"          /\ EqualM(k)
+    \/ e.op = "LessThanM"       /\ LessThanM(k)
 
 TNext ==
     /\ l <= Len(JsonTrace)
